@@ -110,6 +110,99 @@ fn run_start(scripts: &[Vec<StreamElement<i64>>], order: &[usize], coalesce: boo
     out
 }
 
+/// What arrives at / leaves a block input, as far as watermark progress is concerned.
+#[derive(Clone, Copy, Debug, PartialEq, Eq)]
+pub enum Arr {
+    Data,
+    Wm(i64),
+    Far,
+}
+
+/// C17's oracle: a reference tracker of "minimum of the latest watermarks over the upstream
+/// replicas that have not ended their iteration" runs over the arrival sequence; whenever that
+/// minimum rises, the output must hold a watermark of that value after the data elements output so
+/// far and before the next one (or the end of the iteration).
+pub fn progress_fails(n: usize, arrival: &[(usize, Arr)], out: &[Arr], descr: &dyn Fn() -> String) -> Vec<Fail> {
+    let mut fails = vec![];
+    let mut latest: Vec<Option<i64>> = vec![None; n];
+    let mut ended = vec![false; n];
+    let mut cur_min: Option<i64> = None;
+    // requirements: (number of data elements output before, watermark value, cause)
+    let mut req: Vec<(usize, i64, &'static str)> = vec![];
+    let mut data_seen = 0usize;
+    let mut far_seen = 0usize;
+    let mut req_far: Vec<usize> = vec![]; // FAR count at the time of the requirement
+    for (r, e) in arrival {
+        let r = *r;
+        let mut cause = "";
+        match e {
+            Arr::Data => data_seen += 1,
+            Arr::Wm(w) => {
+                latest[r] = Some(*w);
+                cause = "watermark";
+            }
+            Arr::Far => {
+                ended[r] = true;
+                cause = "replica-end";
+                if ended.iter().all(|x| *x) {
+                    // iteration over: reset
+                    ended = vec![false; n];
+                    latest = vec![None; n];
+                    cur_min = None;
+                    far_seen += 1;
+                    continue;
+                }
+            }
+        }
+        if cause.is_empty() {
+            continue;
+        }
+        let active: Vec<Option<i64>> = (0..n).filter(|i| !ended[*i]).map(|i| latest[i]).collect();
+        let m = if active.iter().all(|x| x.is_some()) { active.iter().map(|x| x.unwrap()).min() } else { None };
+        if let Some(m) = m {
+            if cur_min.map(|c| m > c).unwrap_or(true) {
+                cur_min = Some(m);
+                req.push((data_seen, m, cause));
+                req_far.push(far_seen);
+            }
+        }
+    }
+    // position of each requirement in the output: after `data_seen` data elements of the
+    // whole run and before the next data element / the end of that iteration
+    for (k, (d, m, cause)) in req.iter().enumerate() {
+        let mut seen = 0usize;
+        let mut fars = 0usize;
+        let mut found = false;
+        for e in out {
+            match e {
+                Arr::Data => {
+                    if seen >= *d && fars == req_far[k] {
+                        break;
+                    }
+                    seen += 1;
+                }
+                Arr::Wm(w) => {
+                    if seen == *d && fars == req_far[k] && *w == *m {
+                        found = true;
+                        break;
+                    }
+                }
+                Arr::Far => {
+                    if fars == req_far[k] && seen >= *d {
+                        break;
+                    }
+                    fars += 1;
+                }
+            }
+        }
+        if !found {
+            let sig = if *cause == "replica-end" { "c17-progress-on-replica-end-not-forwarded" } else { "c17-watermark-withheld" };
+            fails.push(Fail::new(sig, format!("{}: after {} data elements the minimum over active replicas rose to {m} (caused by a {cause}) but no Watermark({m}) precedes the next element", descr(), d)));
+        }
+    }
+    fails
+}
+
 /// Check one case. `iters[k][r]` = sequence of replica r in iteration k.
 fn check_case(iters: &[Vec<Vec<Sym>>], order: &[usize], coalesce: bool, oracle: Oracle) -> Vec<Fail> {
     let mut fails: Vec<Fail> = vec![];
@@ -172,87 +265,28 @@ fn check_case(iters: &[Vec<Vec<Sym>>], order: &[usize], coalesce: bool, oracle: 
             }
         }
         Oracle::Progress => {
-            // reference tracker over the arrival order
             let mut pos = vec![0usize; n];
-            let mut latest: Vec<Option<i64>> = vec![None; n];
-            let mut ended = vec![false; n];
-            let mut cur_min: Option<i64> = None;
-            // requirements: (number of data elements output before, watermark value, cause)
-            let mut req: Vec<(usize, i64, &'static str)> = vec![];
-            let mut data_seen = 0usize;
-            let mut far_seen = 0usize;
-            let mut req_far: Vec<usize> = vec![]; // FAR count at the time of the requirement
+            let mut arrival: Vec<(usize, Arr)> = vec![];
             for &r in order {
                 let e = &scripts[r][pos[r]];
                 pos[r] += 1;
-                let mut cause = "";
                 match e {
-                    StreamElement::Timestamped(..) => data_seen += 1,
-                    StreamElement::Watermark(w) => {
-                        latest[r] = Some(*w);
-                        cause = "watermark";
-                    }
-                    StreamElement::FlushAndRestart => {
-                        ended[r] = true;
-                        cause = "replica-end";
-                        if ended.iter().all(|x| *x) {
-                            // iteration over: reset
-                            ended = vec![false; n];
-                            latest = vec![None; n];
-                            cur_min = None;
-                            far_seen += 1;
-                            continue;
-                        }
-                    }
+                    StreamElement::Timestamped(..) => arrival.push((r, Arr::Data)),
+                    StreamElement::Watermark(w) => arrival.push((r, Arr::Wm(*w))),
+                    StreamElement::FlushAndRestart => arrival.push((r, Arr::Far)),
                     _ => {}
                 }
-                if cause.is_empty() {
-                    continue;
-                }
-                let active: Vec<Option<i64>> = (0..n).filter(|i| !ended[*i]).map(|i| latest[i]).collect();
-                let m = if active.iter().all(|x| x.is_some()) { active.iter().map(|x| x.unwrap()).min() } else { None };
-                if let Some(m) = m {
-                    if cur_min.map(|c| m > c).unwrap_or(true) {
-                        cur_min = Some(m);
-                        req.push((data_seen, m, cause));
-                        req_far.push(far_seen);
-                    }
-                }
             }
-            // position of each requirement in the output: after `data_seen` data elements of the
-            // whole run and before the next data element / the end of that iteration
-            for (k, (d, m, cause)) in req.iter().enumerate() {
-                let mut seen = 0usize;
-                let mut fars = 0usize;
-                let mut found = false;
-                for e in &out {
-                    match e {
-                        StreamElement::Timestamped(..) => {
-                            if seen >= *d && fars == req_far[k] {
-                                break;
-                            }
-                            seen += 1;
-                        }
-                        StreamElement::Watermark(w) => {
-                            if seen == *d && fars == req_far[k] && *w == *m {
-                                found = true;
-                                break;
-                            }
-                        }
-                        StreamElement::FlushAndRestart => {
-                            if fars == req_far[k] && seen >= *d {
-                                break;
-                            }
-                            fars += 1;
-                        }
-                        _ => {}
-                    }
-                }
-                if !found {
-                    let sig = if *cause == "replica-end" { "c17-progress-on-replica-end-not-forwarded" } else { "c17-watermark-withheld" };
-                    fails.push(Fail::new(sig, format!("{}: after {} data elements the minimum over active replicas rose to {m} (caused by a {cause}) but no Watermark({m}) precedes the next element; output {:?}", descr(), d, out)));
-                }
-            }
+            let outk: Vec<Arr> = out
+                .iter()
+                .filter_map(|e| match e {
+                    StreamElement::Timestamped(..) => Some(Arr::Data),
+                    StreamElement::Watermark(w) => Some(Arr::Wm(*w)),
+                    StreamElement::FlushAndRestart => Some(Arr::Far),
+                    _ => None,
+                })
+                .collect();
+            fails.extend(progress_fails(n, &arrival, &outk, &|| format!("{}; output {:?}", descr(), out)));
         }
     }
     fails
